@@ -62,13 +62,15 @@ static bool val_eq_arg(char t, const Val &v, const rtosc_arg_t &a, const char *m
     }
 }
 
-static void check_decode(const Msg &m, const ref::bytes &rb, const std::string &desc, const std::vector<std::string> &tags)
+// `shift`: the message starts 0..3 bytes behind a 16-aligned address (upstream: test/message-alignment.c)
+static void check_decode(const Msg &m, const ref::bytes &rb, const std::string &desc0, const std::vector<std::string> &tags, size_t shift = 0)
 {
-    Heap h(rb.size());
-    memcpy(h.p, rb.data(), rb.size());
-    const char *msg = h.p;
+    Heap h(rb.size() + shift);
+    memcpy(h.p + shift, rb.data(), rb.size());
+    const char *msg = h.p + shift;
     size_t len = rb.size();
-    count("decode.messages");
+    std::string desc = shift ? desc0 + fmt(" [message placed at a 16-aligned address + %zu]", shift) : desc0;
+    count(shift ? "decode.messages_unaligned" : "decode.messages");
     size_t ml = rtosc_message_length(msg, len);
     if(ml != len) fail("message_length", tags, desc, std::to_string(ml), std::to_string(len));
     const char *as = rtosc_argument_string(msg);
@@ -107,6 +109,34 @@ static void check_decode(const Msg &m, const ref::bytes &rb, const std::string &
     }
     if(itr_ok && yielded != m.vals.size()) fail("iterator_count", tags, desc, std::to_string(yielded), std::to_string(m.vals.size()));
     if(itr_ok && yielded != n) fail("count_vs_iterator", tags, desc, fmt("narguments=%u iterator=%zu", n, yielded), "equal");
+}
+
+// Accessors are functions of the message bytes alone: a buffer that is reused for one message after the
+// other, read in any order, must give the same answers as a fresh buffer read front to back.
+static void check_history_independence(const Msg &m, const ref::bytes &rb, const std::string &desc0, const std::vector<std::string> &tags, uint64_t seed)
+{
+    static char *arena = (char *)calloc(1, 1 << 18);
+    if(rb.size() + 8 > (1u << 18) || m.vals.empty()) return;
+    size_t off = (seed >> 20) % 2 ? 0 : 4 * ((seed >> 24) % 3);     // mostly the very same address as the previous message
+    memcpy(arena + off, rb.data(), rb.size());
+    memset(arena + off + rb.size(), 0, 8);
+    const char *msg = arena + off;
+    std::string desc = desc0 + " [same buffer as the previous message, arguments read in another order]";
+    count("decode.reused_buffer_messages");
+    Rng r(seed);
+    size_t n = m.vals.size();
+    // order: descending, or a random start index then wrap around, or fully random picks
+    int how = (int)r.below(3);
+    size_t start = (size_t)r.below(n);
+    for(size_t k = 0; k < n; ++k) {
+        size_t i = how == 0 ? n - 1 - k : how == 1 ? (start + k) % n : (size_t)r.below(n);
+        char t = rtosc_type(msg, i);
+        if(t != m.vals[i].type) { fail("type_by_index", tags, desc, fmt("idx %zu '%c'", i, t), std::string(1, m.vals[i].type)); return; }
+        rtosc_arg_t a = rtosc_argument(msg, i);
+        std::string why;
+        if(!val_eq_arg(t, m.vals[i], a, msg, rb.size(), why)) { fail("argument_by_index", tags, desc, fmt("idx %zu: ", i) + why, "bit-identical value"); return; }
+        count("decode.args_reused_buffer");
+    }
 }
 
 static void check_encode_one(const char *which, size_t ret, const Heap &h, const ref::bytes &rb, const std::string &desc,
@@ -163,6 +193,18 @@ static void run_msg(const Msg &m)
         check_encode_one("avmessage", ret, h, rb, desc, t2);
     }
     check_decode(m, rb, desc, tags);
+    uint64_t hh = hash_bytes(rb.data(), rb.size());
+    check_decode(m, rb, desc, tags, 1 + hh % 3);
+    // encoding into a destination that is not 4-byte aligned
+    {
+        size_t shift = 1 + (hh >> 8) % 3;
+        Heap h(rb.size() + shift);
+        size_t ret = rtosc_amessage(h.p + shift, rb.size(), m.addr.c_str(), m.types.c_str(), ap.data());
+        count("encode.amessage_unaligned");
+        if(ret != rb.size()) fail("amessage_return", tags, desc + " [unaligned destination]", std::to_string(ret), std::to_string(rb.size()));
+        else if(memcmp(h.p + shift, rb.data(), rb.size())) fail("amessage_bytes", tags, desc + " [unaligned destination]", hexs(h.p + shift, rb.size() > 96 ? 96 : rb.size()), "reference encoding");
+    }
+    check_history_independence(m, rb, desc, tags, hh);
 }
 
 // arg-val lists with compressed runs must encode like their expansion
